@@ -51,7 +51,11 @@
       trace:  6 k { <ids> message_len <decoded entries: <cid bytes> priority cancel wantType
                     sendDontHave> full <the message's bytes> }*k
    7  blocks_message on blocks given with their data:  7 n { cidspec <data bytes> }*n
-      trace:  7 <the message's bytes> (7 0 when there is no message: n = 0) *)
+      trace:  7 <the message's bytes> (7 0 when there is no message: n = 0)
+   8  end to end (the two nodes of kind 3): a send_request, then a send_response of presences
+      and blocks:   8 <wants: cidspec wantType> <presences: cidspec type> <blocks: as in kind 3>
+      trace:  8 k { 1 <want ids> | 2 <presence ids> | 3 <block ids> }*k — the BitswapEvents of
+              the remote user, one per message that carries something *)
 From Coq Require Import List NArith Bool.
 From V.common Require Import Wire.
 From V.gen Require Consts.
@@ -256,7 +260,8 @@ Inductive case :=
 | CNode (ops : list nop) (tab : list oentry)
 | CPres (mm : N) (l : list spres)
 | CWant (mm : N) (l : list (N * (cid * want_type)))
-| CBlocksMsg (l : list cblock).
+| CBlocksMsg (l : list cblock)
+| CMixed (ws : list (N * (cid * want_type))) (ps : list spres) (bs : list sblock).
 
 Definition decode_case (l : list N) : option case :=
   pall (let* kind := pN in
@@ -269,6 +274,8 @@ Definition decode_case (l : list N) : option case :=
         | 5 => let* mm := pN in let* ps := plist p_spres in pret (CPres mm (map mk_spres (number 0 ps)))
         | 6 => let* mm := pN in let* ws := plist p_want in pret (CWant mm (number 0 ws))
         | 7 => let* bs := plist (let* c := p_cidspec in let* d := p_bytes in pret (c, d)) in pret (CBlocksMsg bs)
+        | 8 => let* ws := plist p_want in let* ps := plist p_spres in let* bs := plist p_sblock in
+               pret (CMixed (number 0 ws) (map mk_spres (number 0 ps)) (map mk_sblock (number 0 bs)))
         | _ => pfail
         end) l.
 
@@ -407,6 +414,17 @@ Definition run_wants (mm : N) (l : list (N * (cid * want_type))) : list N :=
   enc_list enc_wbatch
     (request_rounds (N * (cid * want_type)) (fun _ => 0) iw_elen req_mlen 0 mm (S (length l)) l).
 
+(* ---- kind 8: what the remote user is told, message by message ---- *)
+
+Definition run_mixed (ws : list (N * (cid * want_type))) (ps : list spres) (bs : list sblock) : list N :=
+  let reqs := request_rounds (N * (cid * want_type)) (fun _ => 0) iw_elen req_mlen 0 MM (S (length ws)) ws in
+  let evs :=
+    flat_map (fun b : list (N * (cid * want_type)) =>
+                match b with [] => [] | _ => [1 :: enc_list (fun x => [fst x]) b] end) reqs ++
+    map (fun b => 2 :: enc_list (fun x => [sp_id x]) b) (send_response_presences MM ps) ++
+    map (fun b => 3 :: enc_list (fun x => [sb_id x]) b) (send_response_blocks MB MM bs) in
+  N.of_nat (length evs) :: concat evs.
+
 Definition run_case (l : list N) : list N :=
   match decode_case l with
   | Some (CRecv bs) => 1 :: N.of_nat (length bs) :: run_recv bs
@@ -417,6 +435,7 @@ Definition run_case (l : list N) : list N :=
   | Some (CPres mm l) => 5 :: run_pres mm l
   | Some (CWant mm l) => 6 :: run_wants mm l
   | Some (CBlocksMsg l) => 7 :: enc_bytes (match l with [] => [] | _ => blocks_bytes l end)
+  | Some (CMixed ws ps bs) => 8 :: run_mixed ws ps bs
   | None => [0]
   end.
 
@@ -853,6 +872,28 @@ Definition prop_ok (case trace : list N) : bool :=
           | [] => true
           | _ => N.of_nat (length raw) =? message_len cblock cb_elen blk_mlen l
           end
+      | None => false
+      end
+  | Some (CMixed ws ps bs), 8 :: body =>
+      match pall (plist (let* tag := pN in let* ids := plist pN in pret (tag, ids))) body with
+      | Some evs =>
+          let of_tag t := map snd (filter (fun e : N * list N => fst e =? t) evs) in
+          (* requests first, then presences, then blocks; nothing else; no empty event *)
+          forallb (fun e : N * list N => (1 <=? fst e) && (fst e <=? 3) &&
+                                         negb (match snd e with [] => true | _ => false end)) evs &&
+          nlist_eqb (map fst evs)
+                    (map (fun _ => 1) (of_tag 1) ++ map (fun _ => 2) (of_tag 2) ++ map (fun _ => 3) (of_tag 3)) &&
+          (* every want, presence and block that fits a message is reported once and in order *)
+          nlist_eqb (concat (of_tag 1))
+                    (map fst (filter (fits (N * (cid * want_type)) (fun _ => 0) iw_elen req_mlen 0 MM) ws)) &&
+          nlist_eqb (concat (of_tag 2))
+                    (map sp_id (filter (fits spres (fun _ => 0) sp_elen blk_mlen 0 MM) ps)) &&
+          nlist_eqb (concat (of_tag 3)) (fit_ids MB MM bs) &&
+          forallb (fun ids => (ids_dsum bs ids <=? MB) &&
+                              (EMPTY_MESSAGE_LEN +
+                               sum (map (fun i => match find_sb bs i with
+                                                  | Some b => sb_elen b | None => 0 end) ids) <=? MM))
+                  (of_tag 3)
       | None => false
       end
   | None, [0] => true
